@@ -18,7 +18,7 @@ ASSUME = [
 ]
 DAILY = ["1h", "1.5h", "1.6h", "2h", "2.5h", "3.5h", "4h"]
 WEEKLY = ["5h", "7.5h", "10h", "10.6h", "16h"]
-PLACES = ["res", "group", "task", "container", "restrict", "team", "groupteam"]
+PLACES = ["res", "group", "task", "container", "restrict", "team", "groupteam", "midslot", "midslot-group", "teampre"]
 HORIZONS = {
     # name: (start, dur, effort hours for a weekly 5h / daily 2h limit)
     "fits": ("2025-01-06", "3w"),
@@ -94,6 +94,21 @@ def to_spec(it):
         resources = [{"id": "grp", "limits": lim, "children": [r1, r2]}]
         x["alloc"] = ["r1", "r2"]
         x["effort"] = eff_min // 2
+    elif place in ("midslot", "midslot-group"):
+        # x is limited (own resource or its group) and enters its first slot behind a sub-slot predecessor that worked elsewhere
+        r0 = {"id": "r0"}
+        if place == "midslot":
+            r1["limits"] = lim
+            resources = [r0, r1, r2]
+        else:
+            resources = [r0, {"id": "grp", "limits": lim, "children": [r1, r2]}]
+        x["deps"] = ["pre"]
+        tasks = [{"id": "pre", "effort": 30 if L >= 60 else 10, "alloc": ["r0"]}, x]
+    elif place == "teampre":
+        r1["limits"] = lim
+        x["alloc"] = ["r1", "r2"]
+        x["effort"] = eff_min // 2
+        tasks = [{"id": "pre", "effort": 20 if L >= 60 else 5, "alloc": ["r2"], "prio": 900}, x]
     if it["comp"]:
         tasks.append({"id": "z", "effort": 150, "alloc": ["r1"], "prio": 300})
     spec["resources"] = resources
@@ -215,7 +230,7 @@ def run(ctx):
             sample_of=lambda it: {"mode B config": it, "distinguished slots": b_slots(it)}, timeout=600)
     common.vacuity_guard(ctx, st)
     cov = st.coverage(
-        "product universe: 6 horizons (fits, overruns the declared end, 14 months, year ends 2024/2026/2020) x 12 limit values x 7 placements "
+        "product universe: 6 horizons (fits, overruns the declared end, 14 months, year ends 2024/2026/2020) x 12 limit values x 10 placements "
         "x resolutions x ASAP/ALAP x competing task; states = distinct schedule observations; transitions = placements + bookings; "
         "non-trivial = the limit was reached in at least one day/week (it was binding). Mode B: for 32 configurations of the bare Limits "
         "object every history (depth <= 3, thorough 4) of booking attempts at the distinguished slots (first/last slot of a day, an ISO week, "
